@@ -149,6 +149,21 @@ theorem register_before_open_leaks :
     (createEff { F with registerAfterOpen := false } true false true) = (false, true) := by
   decide
 
+/-- **a rejected definition leaves the bucket as it was**, also where an open would have stored
+    the merge of several unmerged versions (F61) -/
+theorem rejected_definition_writes_nothing (dec namesOK opens multi : Bool)
+    (h : (createWrites F dec namesOK opens multi).1 = false) :
+    (createWrites F dec namesOK opens multi).2 = false := by
+  have h1 : F.declarableCheckedBeforeOpen = true := by decide
+  unfold createWrites at *
+  cases dec <;> cases namesOK <;> cases opens <;> cases multi <;> simp_all
+
+/-- with the names checked by SQLite's declare only (after the open): two unmerged versions, a
+    definition with columns `a, A` — rejected, and a merge version written -/
+theorem late_name_check_writes_a_merge :
+    createWrites { F with declarableCheckedBeforeOpen := false } true false true true = (false, true) := by
+  decide
+
 /-- the text level of the definition, which the structural model does not see: the grammar takes
     no dangling comma and no keywords run together, an untyped column gets no type, and option
     values are used as written (only string literals lose their quotes) -/
